@@ -1,10 +1,30 @@
 SPEC = {
     'level': 'model_checking',
     'engine': 'E',
-    'technique': 'placeholder',
-    'claim': 'placeholder',
-    'note': 'placeholder',
+    'technique': 'exhaustive table: result/parameter kinds x supplied value classes x {Return, Returns, When(value), Eval}, every cell '
+                 'executed on the real library through real calls to //go:noinline targets; expected outcome derived from the statement only',
+    'claim': 'for the 14 kinds *S, error, interface{}, fmt.Stringer, []byte, map[string]int, chan int, func() int, int64, string, struct S, '
+             '[2]int, an unnameable struct and a pointer to it (plus one ([]byte, error) pair): nil is delivered as the typed zero of '
+             'pointer/interface/slice/map/chan/func results (err == nil holds), typed nils, zero and non-zero values arrive unaltered, concrete '
+             'values are boxed into interface results with their dynamic type, layout-identical struct / struct-pointer stand-ins arrive '
+             'bit-identically under the declared type, and values of another size are refused when configured — through Return, Returns, as '
+             'When(value) conditions (an equal argument selects the clause, a different one does not) and through Eval',
+    'note': 'one or a few representative values per cell; cells the statement leaves open (nil for non-nilable kinds, same-size values of '
+            'another type, pointer stand-ins with another pointee size, non-implementing values for interface results) are executed with '
+            'harmless bit patterns, recorded in the evidence (keys "unjudged ...") and never reported; quick and thorough are the same table',
     'jobs': [{'bin': 'c09', 'shards': 4}],
-    'rule': 'placeholder',
-    'assumptions': [],
+    'rule': 'engine E. Cells = kind x class x representative value (classes: untyped-nil, typed-nil, zero, non-zero, concrete-in-interface, '
+            'standin-struct, standin-pointer, same-size-other-type, smaller, larger; not every class applies to every kind). Mode of a cell: '
+            'deliver (value must arrive as the stated value of the declared type: r == nil on the statically typed result for nil cells, else '
+            'identical dynamic type and identity/deep equality), reject (Return / Returns / When must panic while configuring), unjudged. '
+            'Deliver cells run 5 sub-checks: Return+call, Eval of that stub, Returns(v,v)+2 calls, Return(100).When(v).Return(200) with one '
+            'equal-argument call and calls with arguments that differ in every sense, the same through Eval; reject cells run 3. Fresh builder '
+            'per sub-check, Reset and original-restored sanity check afterwards. evaluations = judged observations; states = (cell, sub-check) '
+            'pairs judged; transitions = API operations + calls; distinct_nontrivial = deliver cells in which every sub-check delivered '
+            'the expected value. Violation key = kind, class, value, via, outcome.',
+    'assumptions': [
+        'rejection means: the configuring operation (Return, Returns, When) panics; accepting the value and failing at call time counts as not rejected',
+        'Eval may hand a nil result back either as untyped nil or as the typed nil of the declared kind',
+        'negative When arguments differ from the configured value both by identity and by content, so that no notion of equality is presupposed',
+    ],
 }
